@@ -239,6 +239,17 @@ CLAIMED.update({
               "metadata language (true by construction, said so).", "Coq meta model + differential correspondence + instrumented sources"),
 })
 
+CLAIMED.update({
+    "C19": _c("Coq (coq/Properties/C19.v, 18 obligations, no bounds): sequential and Blelloch block scans equal the scan of the concatenated "
+              "blocks for every monoid and every block count (the general up-sweep/down-sweep invariant is proved), native sliding-window "
+              "and moving-window banded kernels equal the NumPy window definition for every supported (chunks, window) (associative + "
+              "commutative op: a hypothesis the proof forced, true of every reducer in the table), sliding chunks are a valid layout, "
+              "ensure_minimum_chunksize contract, overlap blocks are windows of the padded array, trim is the inverse, map_overlap of a "
+              "radius-r stencil equals the global stencil for all five boundary kinds (1-D); " + _TIE + " (block plans, chunks, Blelloch "
+              "wiring read back from the real layer); N-d, diff/gradient by value against NumPy.", "5/C19",
+              _TB + "models are per axis; N-d behaviour by execution.", "Coq proof over Gallina model + differential correspondence"),
+})
+
 NOT_APPLICABLE = {
     "C22": "native Rust layers cannot be built or run here (pyo3 0.29 and build crates absent from the offline cargo cache, no prebuilt _rust*.so), so no model of them can be tied to the code",
 }
